@@ -207,3 +207,30 @@ pub fn enumerate(top: &[BoxT], rng: &mut Rng) -> Vec<Xf> {
     }
     v
 }
+
+/// Give a deterministic pseudo-random subset (about one in `one_in`) of the boxes below `moov`
+/// the 64-bit size header (size = 1 + largesize). ISO/IEC 14496-12 4.2 allows that form on any
+/// box; it changes no table content, only positions, which the builder resolves afterwards.
+pub fn mark_large(top: &mut Vec<BoxT>, seed: u64, one_in: u64) -> u64 {
+    fn rec(b: &mut BoxT, seed: u64, one_in: u64, k: &mut u64, marked: &mut u64) {
+        *k += 1;
+        if crate::prng::hash64(&[seed.to_le_bytes(), k.to_le_bytes()].concat()) % one_in == 0 {
+            b.large = true;
+            b.to_end = false;
+            *marked += 1;
+        }
+        for p in b.parts.iter_mut() {
+            if let Part::Child(c) = p {
+                rec(c, seed, one_in, k, marked);
+            }
+        }
+    }
+    let mut k = 0u64;
+    let mut marked = 0u64;
+    for b in top.iter_mut() {
+        if &b.typ == b"moov" {
+            rec(b, seed, one_in, &mut k, &mut marked);
+        }
+    }
+    marked
+}
